@@ -361,6 +361,15 @@ def judge(ctx, form, body, spans, exp, cuts, path, chunks=None):
 
 
 REGRESSION_FORMS = [
+    # a field named _charset_ (RFC 7578 4.6) is a field: what it says does not change how the other fields are read
+    {"boundary": b"b", "parts": [{"name": "_charset_", "filename": None, "content": b"iso-8859-1", "ctype": None, "extra": False},
+                                 {"name": "city", "filename": None, "content": "Z\u00fcrich \u4e2d".encode(), "ctype": None, "extra": False},
+                                 {"name": "_charset_", "filename": None, "content": b"utf-16", "ctype": None, "extra": False},
+                                 {"name": "t", "filename": None, "content": "\u00e9".encode(), "ctype": None, "extra": False}],
+     "preamble": b"", "epilogue": b"", "pad": b""},
+    # transport padding (blanks after the delimiter) and a long preamble
+    {"boundary": b"bnd", "parts": [{"name": "a", "filename": None, "content": b"v1", "ctype": None, "extra": False}, {"name": "b", "filename": "f.bin", "content": b"DATA", "ctype": None, "extra": False}],
+     "preamble": b"This is a multi-part message in MIME format. " * 4, "epilogue": b"bye", "pad": b"    \t "},
     {"boundary": b"b", "parts": [{"name": "f", "filename": "x", "content": b"\rAAAAAAAAAAAAAAAAAAAAAAAAAAAAAAAAAAAAAAAA\n", "ctype": None, "extra": False}],
      "preamble": b"", "epilogue": b"", "pad": b""},
     {"boundary": b"boundary", "parts": [{"name": "a", "filename": None, "content": b"\r\n--boundar", "ctype": None, "extra": False},
